@@ -17,6 +17,9 @@ mod c07;
 mod c09;
 mod c13;
 mod c17;
+mod c19;
+// C19: shadow copy of anstream's private / sealed parts, at the crate root (see shadow.rs)
+include!("shadow.rs");
 
 pub fn unhex(s: &str) -> Vec<u8> {
     if s == "-" {
@@ -49,6 +52,7 @@ fn run_case(line: &str) -> String {
         .or_else(|| c09::dispatch(kind, &f))
         .or_else(|| c13::dispatch(kind, &f))
         .or_else(|| c17::dispatch(kind, &f))
+        .or_else(|| c19::dispatch(kind, &f))
         .unwrap_or_else(|| format!("UNKNOWN-KIND {kind}"))
 }
 
@@ -57,6 +61,12 @@ fn main() {
     if args.len() >= 2 && args[1] == "--c09-child" {
         // hidden mode of the C09 check: see c09.rs
         return c09::child_main(&args[2..]);
+    // hidden modes: C19 stress runs (sanity test of the runtime assumptions)
+    if args.len() == 6 && args[1] == "--c19-stress" {
+        std::process::exit(c19::stress(&args[2..]));
+    }
+    if args.len() == 5 && args[1] == "--c19-regstress" {
+        std::process::exit(c19::regstress(&args[2..]));
     }
     if args.len() != 3 {
         eprintln!("usage: hcore <case-file> <out-file>");
